@@ -180,7 +180,7 @@ Qed.
 Lemma conv_enum_te cls rid raws nm s te s1 : raws <> [] ->
   conv cls rid (sch_enum raws) nm s = Some (te, s1) -> exists n vs, te = DEnum n None TagExternal vs false [AllSimpleVariants].
 Proof.
-  intros Hne H. unfold sch_enum in H. cbn [conv] in H. unfold classify in H. cbn in H.
+  intros Hne H. unfold sch_enum in H. cbn [conv union_of] in H. unfold classify in H. cbn in H.
   rewrite jstrs_map in H. destruct raws as [|r0 raws]; [contradiction|]. cbn in H.
   destruct (type_name cls nm) as [n|]; [|discriminate H]. unfold mk_enum in H.
   destruct (Sanitize.variant_idents cls (r0 :: raws)); try discriminate H.
